@@ -2,7 +2,7 @@ use rosu_map::section::general::GameMode;
 
 use crate::{
     any::{difficulty::skills::StrainSkill, Difficulty},
-    mania::difficulty::DifficultyValues,
+    mania::{convert, difficulty::DifficultyValues},
     model::mode::ConvertError,
     Beatmap,
 };
@@ -22,7 +22,20 @@ impl ManiaStrains {
 }
 
 pub fn strains(difficulty: &Difficulty, map: &Beatmap) -> Result<ManiaStrains, ConvertError> {
-    let map = map.convert_ref(GameMode::Mania, difficulty.get_mods())?;
+    let mut map = map.convert_ref(GameMode::Mania, difficulty.get_mods())?;
+
+    if difficulty.get_mods().ho() {
+        convert::apply_hold_off_to_beatmap(map.to_mut());
+    }
+
+    if difficulty.get_mods().invert() {
+        convert::apply_invert_to_beatmap(map.to_mut());
+    }
+
+    if let Some(seed) = difficulty.get_mods().random_seed() {
+        convert::apply_random_to_beatmap(map.to_mut(), seed);
+    }
+
     let values = DifficultyValues::calculate(difficulty, &map);
 
     Ok(ManiaStrains {
